@@ -224,12 +224,51 @@ def _lock_rules(chk, prog, S):
     rule3 = "C08-NOBLOCK"
     chk.rule(rule3, "no blocking hand-off (a write to another thread's self-pipe) is made while the channel mutex is held")
     nb = 0
+    # (a) the deferring helper: posts directly only when this thread holds no channel mutex; the flush in the unlock
+    #     helper comes after the mutex was released and only when the depth is back to zero
+    for hname in ("janet_chan_post", "janet_chan_unlock"):
+        hf = tu.funcs.get(hname)
+        if hf is None:
+            continue
+        posts = [c for c in hf.calls() if c.callee in BLOCKING_HANDOFF]
+        if not posts:
+            continue
+        chk.analysed(hf)
+        CI, CT = flow.condition_facts(hf)
+        for x, S_ in flow.states_at(hf, CI, CT):
+            if x not in posts:
+                continue
+            nb += 1
+            chk.instance(rule3)
+            ok = bool(S_)
+            for ps in S_:
+                good = False
+                for (op, l, r_, toks, ln, rn) in ps:
+                    if "chan_lock_depth" in l and ((op in ("<=", "==") and (rn is None or rn.v == 0)) or (op == "<" and rn is not None and rn.v == 1)):
+                        good = True
+                if not good:
+                    ok = False
+            if hname == "janet_chan_unlock":
+                unl = [c for c in hf.calls("janet_os_mutex_unlock")]
+                ok = ok and bool(unl) and all(u.ln < x.ln for u in unl)
+            if ok:
+                chk.ok(rule3, "%s: posts only with no channel mutex held (depth tested%s)" % (hname, ", after the unlock" if hname == "janet_chan_unlock" else ""))
+            else:
+                chk.violation(rule3, "ev.c", hname, "%s:undeferred" % x.callee, x.loc,
+                              "`%s` in %s is not confined to the case that this thread holds no channel mutex (chan_lock_depth == 0%s): a "
+                              "hand-off can again be written to a full self-pipe while the mutex the receiver needs is held" % (
+                                  x.text()[:50], hname, ", after the mutex was released" if hname == "janet_chan_unlock" else ""))
+    # (b) the channel code itself never posts directly while a mutex may be held
     for fn in order:
         if fn.name == "cfun_channel_choice":
             continue
         r = results[fn.name]
         k = 0
         for n in fn.calls():
+            if n.callee == "janet_chan_post" and n.id in r["states"]:
+                nb += 1
+                chk.instance(rule3)
+                chk.ok(rule3, "%s: hand-off through the deferring helper" % fn.name)
             if n.callee in BLOCKING_HANDOFF and n.id in r["states"]:
                 k += 1
                 nb += 1
@@ -592,6 +631,10 @@ def _msgrec_rule(chk, prog):
     for fn in prog.tus["ev.c"].funcs.values():
         sites = [c for c in fn.calls("janet_ev_post_event")
                  if len(c.args) == 3 and is_ref(strip_casts(c.args[1]), "janet_thread_chan_cb") and is_ref(strip_casts(c.args[2]))]
+        # (since the hand-off restructuring the channel code goes through janet_chan_post(vm, msg), which posts to
+        # janet_thread_chan_cb itself - at once, or after the last channel mutex is released)
+        sites += [c for c in fn.calls("janet_chan_post") if len(c.args) == 2 and is_ref(strip_casts(c.args[1]))]
+        sites = [c for c in sites if fn.name not in ("janet_chan_post", "janet_chan_unlock")]
         if not sites:
             continue
         chk.analysed(fn)
@@ -625,7 +668,7 @@ def _msgrec_rule(chk, prog):
                 continue
             n += 1
             chk.instance(rule)
-            m = strip_casts(x.args[2]).name
+            m = strip_casts(x.args[-1]).name
             vmarg = strip_casts(x.args[0])
             got = {}
             for f in NEED:
